@@ -33,7 +33,8 @@ PROP = dict(
     assumptions=[
         "PeersDrain (the peer reads what is written) is NOT assumed by the invariants but IS needed for 'a call returns by its deadline': "
         "Connection.Send writes under Connection.mu without a deadline and is not context-aware; with a stalled peer the property is FALSE on "
-        "the real client (known finding go.client.stalled; model witness stalled_peer_outlives_deadline)",
+        "the real client (known finding go.client.stalled, exercised in the THOROUGH tier only so that a known oracle failure does not switch off "
+        "the failing-input search of quick runs; model witness stalled_peer_outlives_deadline)",
         "fairness for reconnect_live as Lean hypotheses over infinite executions: SockDies (F1), WeakFair writeFail/pingDone (F2), StrongFair "
         "pingFail/reconnectStart (F3: sync.Mutex is starvation-free), WeakFair reconnectOk (F4: the server completes a handshake)",
         "queriesMutex and connMutex critical sections are atomic steps (no nested acquisition in the code: ClientOrder obligations); only "
